@@ -262,7 +262,8 @@ Qed.
 Theorem clock_spec : forall p turn m old, wf_b p turn = true -> (turn = 0 \/ turn = 1) ->
   In m (pseudo_legal_moves p turn) ->
   let sp := abs_pos p in let sm := abs_move m in
-  update_noprogress old m = (if is_capture_move sp sm || is_pawn_move sp sm then 0 else old + 1) /\
+  update_noprogress old m = (if is_capture_move sp sm || is_pawn_move sp sm then 0
+                             else if old =? max_int then old else old + 1) /\
   (is_capture_move sp sm || is_pawn_move sp sm = negb ((mtype m =? Normal) || is_castle m)).
 Proof.
   intros p turn m old Hwf Hc Hin. cbv zeta.
@@ -290,13 +291,52 @@ Proof.
   destruct ((mtype m =? Normal) || is_castle m); reflexivity.
 Qed.
 
-Corollary clock_spec_Z : forall p turn m old, wf_b p turn = true -> (turn = 0 \/ turn = 1) ->
-  In m (pseudo_legal_moves p turn) ->
-  Z.of_N (update_noprogress old m) =
-  (if is_capture_move (abs_pos p) (abs_move m) || is_pawn_move (abs_pos p) (abs_move m) then 0 else Z.of_N old + 1)%Z.
+(** the clock of the board saturates at [max_int] (Go: math.MaxInt); the clock of the specification game
+    is an unbounded integer.  The refinement relation between the two is [clk_rel]: the board carries the
+    specification's clock capped at [max_int]. *)
+Definition clk_rel (n : N) (gc : Z) : Prop := Z.of_N n = Z.min gc (Z.of_N max_int).
+
+Lemma clk_rel_le n gc : clk_rel n gc -> n <= max_int.
+Proof. unfold clk_rel. lia. Qed.
+
+Lemma clk_rel_start np : np <= max_int -> clk_rel np (Z.of_N np).
+Proof. unfold clk_rel. lia. Qed.
+
+(** below saturation the two clocks are equal *)
+Lemma clk_rel_exact n gc : clk_rel n gc -> (gc <= Z.of_N max_int)%Z -> Z.of_N n = gc.
+Proof. unfold clk_rel. lia. Qed.
+Lemma clk_rel_small n gc : clk_rel n gc -> n < max_int -> Z.of_N n = gc.
+Proof. unfold clk_rel. lia. Qed.
+
+(** the fifty-move test reads the same on both sides *)
+Lemma clk_rel_limit n gc : clk_rel n gc -> (noprogressPlyLimit <=? n) = (100 <=? gc)%Z.
 Proof.
-  intros p turn m old Hwf Hc Hin. destruct (clock_spec p turn m old Hwf Hc Hin) as [-> _].
-  destruct (_ || _); lia.
+  unfold clk_rel, noprogressPlyLimit. intros H. assert (M : (100 <= Z.of_N max_int)%Z) by (vm_compute; discriminate).
+  destruct (N.leb_spec 100 n); destruct (Z.leb_spec 100 gc); try reflexivity; lia.
+Qed.
+
+(** one step of the saturating counter against one step of the unbounded one *)
+Lemma clk_rel_succ n gc : clk_rel n gc -> clk_rel (if n =? max_int then n else n + 1) (gc + 1).
+Proof. unfold clk_rel. intros H. destruct (N.eqb_spec n max_int) as [E|E]; lia. Qed.
+
+Corollary clock_spec_Z : forall p turn m old gc, wf_b p turn = true -> (turn = 0 \/ turn = 1) ->
+  In m (pseudo_legal_moves p turn) -> clk_rel old gc ->
+  clk_rel (update_noprogress old m)
+    (if is_capture_move (abs_pos p) (abs_move m) || is_pawn_move (abs_pos p) (abs_move m) then 0 else gc + 1)%Z.
+Proof.
+  intros p turn m old gc Hwf Hc Hin Hrel. destruct (clock_spec p turn m old Hwf Hc Hin) as [-> _].
+  destruct (_ || _); [|now apply clk_rel_succ]. unfold clk_rel. vm_compute. reflexivity.
+Qed.
+
+(** no saturation reached: the counter is the plain successor (the statement before the repair) *)
+Lemma update_noprogress_small old m : old < max_int ->
+  update_noprogress old m = if (mtype m =? Normal) || is_castle m then old + 1 else 0.
+Proof.
+  intros H. unfold update_noprogress. destruct (N.eqb_spec old max_int) as [E|E]; [lia|reflexivity].
+Qed.
+Lemma update_noprogress_le old m : old <= max_int -> update_noprogress old m <= max_int.
+Proof.
+  intros H. unfold update_noprogress. destruct (_ || _); [|lia]. destruct (N.eqb_spec old max_int) as [E|E]; lia.
 Qed.
 
 Print Assumptions insufficient_iff.
